@@ -266,7 +266,7 @@ class XPathNode:
         if self.children:
             for c in self.children:
                 if isinstance(child, ElementNode):
-                    if c.name == child.name:
+                    if isinstance(c, ElementNode) and c.name == child.name:
                         pos += 1
                 elif isinstance(c, child.__class__):
                     if not isinstance(c, ProcessingInstructionNode) or c.name == child.name:
